@@ -301,7 +301,10 @@ class Cluster:
                     ret = self.env.process(task.do_work(self.env, machine,
                                                         predecessor_allocations))
                     yield self.env.timeout(1)
-            if ret.triggered:
+            # The task body ends one timestep before the finish time it
+            # records (Task.do_work): the machine stays with the task until
+            # then, whatever the order of the two processes in that step.
+            if ret.triggered and self.env.now >= task.aft:
                 # machine.stop_task(task)
                 self._clusters[c]['tasks']['running'].remove(task)
                 self._clusters[c]['usage_data']['running_tasks'] -= 1
